@@ -12,7 +12,9 @@ import random
 import sys
 
 DIRS = [(1,), (3, 4), (1, 2, 2), (2, 3, 6), (4, 4, 7), (0, 3, 0, 4), (1, 1, 1, 1), (2, 4, 5, 6)]   # integer lengths 1 5 3 7 9 5 2 9
-TRUNCS = [(1, 1), (1, 2), (3, 4), (1, 4), (7, 8)]
+# dyadic factors only (n * tn / td is then exact in floats, so floor(n * factor) is what the definition says); 5/8, 3/8
+# and 7/8 are no whole percents
+TRUNCS = [(1, 1), (1, 2), (3, 4), (1, 4), (7, 8), (5, 8), (3, 8)]
 FACTORS = [(1, 1), (3, 2), (2, 1), (3, 1), (5, 2), (1, 2)]
 
 
@@ -44,7 +46,7 @@ def gen_cases(seed: int, n_cases: int) -> list[dict]:
         if r.random() < 0.35:      # tie groups among the non-best individuals
             g = r.choice([2, 3])
             ranks = [0 if x == 0 else 1 + (x - 1) // g for x in ranks]
-        tn, td = r.choice([(1, 1), (7, 8), (3, 4)]) if big else r.choice(TRUNCS)
+        tn, td = r.choice([(1, 1), (7, 8), (3, 4), (5, 8)]) if big else r.choice(TRUNCS)
         m = (n * tn) // td
         pts = [{"p": p, "r": rk} for p, rk in zip(pos, ranks)]
         # the cut must not split a tie group (then the definition leaves a choice: covered by the exhaustive tables)
